@@ -38,7 +38,7 @@ Proof. destruct p; [reflexivity | discriminate]. Qed.
 
 Lemma exec_attr_top ns k v st :
   ns <> [] ->
-  exec [] (DAttr (0, ns) k v) st
+  exec [] [] (DAttr (0, ns) k v) st
   = Ok (mkState (upd_obj (fkey ns) (set_attr k v) (fst (ensure [] [] ns (objs st)))) (edges st)).
 Proof.
   intro Hne. simpl. pose proof (ensure_top_key [] ns (objs st)) as Hk.
@@ -49,7 +49,7 @@ Qed.
 
 Lemma exec_obj_top ns p body st :
   ns <> [] ->
-  exec [] (DObj (0, ns) p body) st =
+  exec [] [] (DObj (0, ns) p body) st =
   let os1 := fst (ensure [] [] ns (objs st)) in
   let D := snd (ensure [] [] ns (objs st)) in
   match p with
@@ -58,7 +58,7 @@ Lemma exec_obj_top ns p body st :
       let st2 := match p with
                  | PStr v => mkState (upd_obj (fkey ns) (set_prim v) os1) (edges st)
                  | _ => mkState os1 (edges st) end in
-      match body with None => Ok st2 | Some ds => exec_list D ds st2 end
+      match body with None => Ok st2 | Some ds => exec_list [[]] D ds st2 end
   end.
 Proof.
   intro Hne. rewrite exec_DObj. unfold exec_obj.
@@ -132,8 +132,8 @@ Proof.
     intro Hin. apply in_map_iff in Hin as [o [Ek Ho]]. eapply find_obj_none in E; eauto.
 Qed.
 
-Lemma exec_edge_objs S s t sa da idx p eb st st' :
-  exec S (DEdge s t sa da idx p eb) st = Ok st' ->
+Lemma exec_edge_objs Os S s t sa da idx p eb st st' :
+  exec Os S (DEdge s t sa da idx p eb) st = Ok st' ->
   objs st' = objs st \/
   (exists Bs Bd, objs st' = fst (ensure S Bd (snd t) (fst (ensure S Bs (snd s) (objs st))))).
 Proof.
@@ -153,8 +153,8 @@ Proof.
     intro H; inversion H; subst; right; cbn [objs]. exists p, p0. rewrite E1. cbn [fst]. rewrite E2. reflexivity.
 Qed.
 
-Lemma exec_edge_attr_objs S s t sa da i k v st st' :
-  exec S (DEdgeAttr s t sa da i k v) st = Ok st' -> objs st' = objs st.
+Lemma exec_edge_attr_objs Os S s t sa da i k v st st' :
+  exec Os S (DEdgeAttr s t sa da i k v) st = Ok st' -> objs st' = objs st.
 Proof.
   simpl. unfold exec_edge_null, exec_edge_ref.
   destruct v; destruct (snd s) eqn:Es; try discriminate; destruct (snd t) eqn:Et; try discriminate;
@@ -162,23 +162,6 @@ Proof.
            | |- context [base_of ?S ?u] => destruct (base_of S u)
            | |- context [existsb ?f ?l] => destruct (existsb f l)
            end; try discriminate; intro H; inversion H; subst; reflexivity.
-Qed.
-
-Lemma uniq_preserved d S st st' : uniq st -> exec S d st = Ok st' -> uniq st'.
-Proof.
-  intros Hu Hex.
-  apply (exec_inv (fun _ => true) uniq) with (d := d) (S := S) (st := st); auto.
-  - intros. unfold uniq, keys in *. simpl. apply ensure_uniq. assumption.
-  - intros. unfold uniq, keys in *. simpl. rewrite map_okey_upd; assumption.
-  - intros. unfold uniq, keys in *. simpl. apply NoDup_map_filter. assumption.
-  - intros S0 s t sa da idx p eb st0 st0' _ Hi He. unfold uniq, keys in *.
-    apply exec_edge_objs in He as [->|[Bs [Bd ->]]]; [assumption|].
-    apply ensure_uniq, ensure_uniq. assumption.
-  - intros S0 s t sa da i k v st0 st0' _ Hi He. unfold uniq, keys in *.
-    apply exec_edge_attr_objs in He. rewrite He. assumption.
-  - clear. induction d as [r p body IH| | |] using decl_ind'; simpl; auto.
-    destruct body as [ds|]; [|reflexivity]. simpl in IH. induction IH; simpl; [reflexivity|].
-    rewrite H. exact IHIH.
 Qed.
 
 Lemma all_ok_true d : all_ok (fun _ => true) d = true.
@@ -194,10 +177,10 @@ Proof.
   - intros. unfold uniq, keys in *. simpl. apply ensure_uniq. assumption.
   - intros. unfold uniq, keys in *. simpl. rewrite map_okey_upd; assumption.
   - intros. unfold uniq, keys in *. simpl. apply NoDup_map_filter. assumption.
-  - intros S0 s t sa da idx pr eb st0 st0' _ Hi He. unfold uniq, keys in *.
+  - intros Os0 S0 s t sa da idx pr eb st0 st0' _ Hi He. unfold uniq, keys in *.
     apply exec_edge_objs in He as [->|[Bs [Bd ->]]]; [assumption|].
     apply ensure_uniq, ensure_uniq. assumption.
-  - intros S0 s t sa da i k v st0 st0' _ Hi He. unfold uniq, keys in *.
+  - intros Os0 S0 s t sa da i k v st0 st0' _ Hi He. unfold uniq, keys in *.
     apply exec_edge_attr_objs in He. rewrite He. assumption.
   - unfold prog_ok. apply forallb_forall. intros; apply all_ok_true.
   - constructor.
@@ -568,8 +551,8 @@ Proof.
   rewrite fkey_length in L. split; exact L.
 Qed.
 
-Lemma inv2_edge S s t sa da idx p eb st st' :
-  plain_decl (DEdge s t sa da idx p eb) = true -> inv2 st -> exec S (DEdge s t sa da idx p eb) st = Ok st' -> inv2 st'.
+Lemma inv2_edge Os S s t sa da idx p eb st st' :
+  plain_decl (DEdge s t sa da idx p eb) = true -> inv2 st -> exec Os S (DEdge s t sa da idx p eb) st = Ok st' -> inv2 st'.
 Proof.
   intros Hok [Ht Hc] Hex. simpl in Hok.
   apply andb_true_iff in Hok as [Hok Hp]. apply andb_true_iff in Hok as [Us Ut].
@@ -591,8 +574,8 @@ Proof.
   all: unfold consistent; apply cons_from_app; [exact Hc|]; reflexivity.
 Qed.
 
-Lemma inv2_edge_attr S s t sa da i k v st st' :
-  plain_decl (DEdgeAttr s t sa da i k v) = true -> inv2 st -> exec S (DEdgeAttr s t sa da i k v) st = Ok st' -> inv2 st'.
+Lemma inv2_edge_attr Os S s t sa da i k v st st' :
+  plain_decl (DEdgeAttr s t sa da i k v) = true -> inv2 st -> exec Os S (DEdgeAttr s t sa da i k v) st = Ok st' -> inv2 st'.
 Proof.
   intros Hok [Ht Hc] Hex. simpl in Hok.
   apply andb_true_iff in Hok as [_ Hv]. destruct v as [v|]; [|discriminate].
@@ -612,4 +595,344 @@ Proof.
   - intros S D ns st0 H. exact H.
   - intros K f st0 _ H. exact H.
   - split; [constructor | exact I].
+Qed.
+
+(* ================================================================ numbering of connections *)
+
+Definition gclass_of (e : edge) (g : gedge) : bool := gclass_eqb (fkey (esrc e)) (fkey (edst e)) (esa e) (eda e) g.
+
+Lemma number_app seen es1 es2 : number seen (es1 ++ es2) = number seen es1 ++ number (seen ++ es1) es2.
+Proof.
+  revert seen; induction es1 as [|e es1 IH]; intro seen; simpl.
+  - rewrite app_nil_r. reflexivity.
+  - rewrite IH, <- app_assoc. reflexivity.
+Qed.
+
+Lemma number_length seen es : length (number seen es) = length es.
+Proof. revert seen; induction es as [|e es IH]; intro seen; simpl; [reflexivity|]. rewrite IH. reflexivity. Qed.
+
+Lemma number_consistent seen es : cons_from seen es -> number seen es = map (fun e => gedge_of (eidx e) e) es.
+Proof.
+  revert seen; induction es as [|e es IH]; intros seen H; simpl in *; [reflexivity|].
+  destruct H as [H1 H2]. rewrite <- H1, IH by exact H2. reflexivity.
+Qed.
+
+(* restriction to a class-closed set of connections commutes with numbering *)
+Lemma number_filter (q : edge -> bool) (qg : gedge -> bool) seen es :
+  (forall n e, qg (gedge_of n e) = q e) ->
+  (forall e e', same_class e e' = true -> q e = q e') ->
+  filter qg (number seen es) = number (filter q seen) (filter q es).
+Proof.
+  intros Hqg Hq. revert seen; induction es as [|e es IH]; intro seen; simpl; [reflexivity|].
+  specialize (IH (seen ++ [e])). rewrite filter_app in IH. simpl in IH.
+  rewrite Hqg. destruct (q e) eqn:Q; simpl.
+  - rewrite IH. f_equal. f_equal. f_equal. symmetry.
+    apply filter_filter_keep. intros x _ Cx. rewrite <- Q. symmetry. apply Hq. exact Cx.
+  - rewrite app_nil_r in IH. exact IH.
+Qed.
+
+Lemma remove_first_filter {A} (h q : A -> bool) l :
+  (forall x, h x = true -> q x = false) -> filter q (remove_first h l) = filter q l.
+Proof.
+  intro H. induction l as [|x l IH]; simpl; [reflexivity|].
+  destruct (h x) eqn:Hx.
+  - rewrite (H x Hx). reflexivity.
+  - simpl. rewrite IH. reflexivity.
+Qed.
+
+Lemma remove_first_length {A} (h : A -> bool) l :
+  existsb h l = true -> S (length (remove_first h l)) = length l.
+Proof.
+  induction l as [|x l IH]; simpl; [discriminate|].
+  destruct (h x); simpl; [reflexivity|]. intro H. rewrite IH by exact H. reflexivity.
+Qed.
+
+Lemma remove_first_none {A} (h : A -> bool) l : existsb h l = false -> remove_first h l = l.
+Proof.
+  induction l as [|x l IH]; simpl; [reflexivity|].
+  destruct (h x); simpl; [discriminate|]. intro H. rewrite IH by exact H. reflexivity.
+Qed.
+
+(* ================================================================ null removes a connection *)
+
+Lemma exec_edge_null_top s t sa da i st :
+  s <> [] -> t <> [] ->
+  exec_edge_null [] (0, s) (0, t) sa da (Some i) st
+  = Ok (mkState (objs st) (remove_first (ref_hit (fkey s) (fkey t) sa da i) (edges st))).
+Proof. intros Hs Ht. destruct s; [contradiction|]. destruct t; [contradiction|]. reflexivity. Qed.
+
+Lemma eclass_closed ks kd sa da e e' : same_class e e' = true -> eclass_eqb ks kd sa da e = eclass_eqb ks kd sa da e'.
+Proof.
+  unfold same_class, eclass_eqb. intro H.
+  repeat (apply andb_true_iff in H as [H ?]). apply path_eqb_eq in H. apply path_eqb_eq in H2.
+  apply Bool.eqb_prop in H1. apply Bool.eqb_prop in H0. rewrite H, H2, H1, H0. reflexivity.
+Qed.
+
+Lemma gclass_gedge_of ks kd sa da n e : gclass_eqb ks kd sa da (gedge_of n e) = eclass_eqb ks kd sa da e.
+Proof. reflexivity. Qed.
+
+Lemma remove_first_filter_length {A} (h q : A -> bool) l :
+  (forall x, h x = true -> q x = true) -> existsb h l = true ->
+  S (length (filter q (remove_first h l))) = length (filter q l).
+Proof.
+  intros Hhq. induction l as [|x l IH]; simpl; [discriminate|].
+  destruct (h x) eqn:Hx; simpl.
+  - intros _. rewrite (Hhq x Hx). reflexivity.
+  - intro H. destruct (q x); simpl; rewrite IH by exact H; reflexivity.
+Qed.
+
+Theorem null_removes_edge p s t sa da i eb st b b' :
+  s <> [] -> t <> [] -> run_state p = Ok st -> run p = RBoard b ->
+  run (p ++ [DEdge (0, s) (0, t) sa da (Some i) PNull eb]) = RBoard b' ->
+  let cls := gclass_eqb (fkey s) (fkey t) sa da in
+  let hit := ref_hit (fkey s) (fkey t) sa da i in
+  gobjs b' = gobjs b /\
+  filter (fun g => negb (cls g)) (gedges b') = filter (fun g => negb (cls g)) (gedges b) /\
+  (existsb hit (edges st) = true -> S (length (filter cls (gedges b'))) = length (filter cls (gedges b))) /\
+  (existsb hit (edges st) = false -> gedges b' = gedges b).
+Proof.
+  intros Hs Ht Hp Hb Hb' cls hit.
+  apply run_board in Hb as [st0 [Hs0 ->]]. rewrite Hp in Hs0. inversion Hs0; subst st0; clear Hs0.
+  apply run_board in Hb' as [st' [Hs' ->]].
+  rewrite run_state_snoc, Hp in Hs'. simpl in Hs'. rewrite exec_edge_null_top in Hs' by assumption.
+  inversion Hs'; subst; clear Hs'. unfold to_board; cbn [gobjs gedges objs edges].
+  split; [reflexivity|].
+  assert (forall n e, cls (gedge_of n e) = eclass_eqb (fkey s) (fkey t) sa da e) as Hcg by reflexivity.
+  split; [|split].
+  - rewrite !(number_filter (fun e => negb (eclass_eqb (fkey s) (fkey t) sa da e)) (fun g => negb (cls g))).
+    + simpl. rewrite remove_first_filter; [reflexivity|].
+      intros x Hx. unfold ref_hit in Hx. apply andb_true_iff in Hx as [Hx _]. rewrite Hx. reflexivity.
+    + intros; rewrite Hcg; reflexivity.
+    + intros e e' Hc. rewrite (eclass_closed _ _ _ _ e e' Hc). reflexivity.
+    + intros; rewrite Hcg; reflexivity.
+    + intros e e' Hc. rewrite (eclass_closed _ _ _ _ e e' Hc). reflexivity.
+  - intro Hex.
+    rewrite !(number_filter (eclass_eqb (fkey s) (fkey t) sa da) cls) by (auto; apply eclass_closed).
+    rewrite !number_length. simpl. apply remove_first_filter_length; [|exact Hex].
+    intros x Hx. unfold ref_hit in Hx. apply andb_true_iff in Hx as [Hx _]. exact Hx.
+  - intro Hex. fold hit. rewrite remove_first_none by exact Hex. reflexivity.
+Qed.
+
+(* under consistency the IR index is the graph index *)
+Lemma hit_graph ks kd sa da i es :
+  consistent es ->
+  existsb (ref_hit ks kd sa da i) es
+  = existsb (fun g => gclass_eqb ks kd sa da g && Nat.eqb (gidx g) i) (number [] es).
+Proof.
+  intro Hc. rewrite (number_consistent [] es Hc). clear Hc.
+  induction es as [|e es IH]; simpl; [reflexivity|]. rewrite IH. reflexivity.
+Qed.
+
+(* ================================================================ names are compared case-insensitively *)
+
+(* every object on the way from D along ns exists *)
+Definition all_exist (D : path) (ns : list name) (os : list obj) : Prop :=
+  forall j, 1 <= j <= length ns -> has_key (fkey D ++ fkey (firstn j ns)) os.
+
+Lemma has_key_upd K K' f os : (forall o, opath (f o) = opath o) -> has_key K' os -> has_key K' (upd_obj K f os).
+Proof.
+  intros Hf H. eapply has_key_paths; [|exact H]. exists []. rewrite app_nil_r. apply upd_obj_keys. exact Hf.
+Qed.
+
+Lemma fkey_cons n r : fkey (n :: r) = fold_name n :: fkey r.
+Proof. reflexivity. Qed.
+
+Lemma all_exist_step Sc D n r os o :
+  all_exist D (n :: r) os -> find_obj (fkey (D ++ [n])) os = Some o ->
+  all_exist (opath o) r (upd_obj (fkey (D ++ [n])) (add_scope Sc) os).
+Proof.
+  intros H E j Hj. apply has_key_upd; [apply add_scope_path|].
+  apply find_obj_some in E as [_ Ek]. rewrite Ek, fkey_app. simpl.
+  specialize (H (S j)). simpl in H. rewrite <- app_assoc. simpl. apply H. lia.
+Qed.
+
+Lemma ensure_spelling S D ns ns' os :
+  fkey ns = fkey ns' -> all_exist D ns os -> ensure S D ns os = ensure S D ns' os.
+Proof.
+  revert D ns' os; induction ns as [|n r IH]; intros D ns' os E H.
+  - destruct ns'; [reflexivity | discriminate].
+  - destruct ns' as [|n' r']; [discriminate|]. rewrite !fkey_cons in E. inversion E as [[E1 E2]].
+    simpl. rewrite !fkey_app. simpl. rewrite <- E1.
+    assert (has_key (fkey (D ++ [n])) os) as Hk.
+    { specialize (H 1). simpl in H. rewrite fkey_app. apply H. lia. }
+    apply find_obj_has_key in Hk. rewrite fkey_app in Hk. simpl in Hk.
+    destruct (find_obj (fkey D ++ [fold_name n]) os) as [o|] eqn:Ef; [|congruence].
+    apply IH; [exact E2|].
+    rewrite <- fkey_app with (b := [n]) in *. eapply all_exist_step; eauto.
+Qed.
+
+Theorem case_insensitive_attr p ns ns' k v st :
+  run_state p = Ok st -> fkey ns = fkey ns' -> all_exist [] ns (objs st) ->
+  run (p ++ [DAttr (0, ns) k v]) = run (p ++ [DAttr (0, ns') k v]).
+Proof.
+  intros Hp E H. unfold run. rewrite !run_state_snoc, Hp. cbn [exec]. rewrite base_of_top.
+  rewrite (ensure_spelling [] [] ns ns' (objs st) E H). reflexivity.
+Qed.
+
+Theorem case_insensitive_obj p ns ns' pv body st :
+  run_state p = Ok st -> fkey ns = fkey ns' -> all_exist [] ns (objs st) ->
+  run (p ++ [DObj (0, ns) pv body]) = run (p ++ [DObj (0, ns') pv body]).
+Proof.
+  intros Hp E H. unfold run. rewrite !run_state_snoc, Hp. rewrite !exec_DObj. unfold exec_obj.
+  destruct ns as [|n r]; destruct ns' as [|n' r']; try discriminate; [reflexivity|].
+  rewrite base_of_top. cbv beta iota.
+  rewrite (ensure_spelling [] [] (n :: r) (n' :: r') (objs st) E H). reflexivity.
+Qed.
+
+(* ---- after ensure every object on the path exists ---- *)
+
+Lemma ensure_all_exist Sc D ns os : all_exist D ns (fst (ensure Sc D ns os)).
+Proof.
+  revert D os; induction ns as [|n r IH]; intros D os j Hj; simpl in Hj; [lia|].
+  simpl.
+  assert (forall D' os', fkey D' = fkey (D ++ [n]) -> has_key (fkey D') os' ->
+            has_key (fkey D ++ fkey (firstn j (n :: r))) (fst (ensure Sc D' r os'))) as Hgen.
+  { intros D' os' Ek Hk. destruct j as [|j]; [lia|]. simpl. destruct j as [|j].
+    - simpl. eapply has_key_paths; [apply ensure_paths|]. rewrite Ek, fkey_app in Hk. exact Hk.
+    - specialize (IH D' os' (S j)). rewrite Ek, fkey_app in IH. simpl in IH. rewrite <- app_assoc in IH. simpl in IH.
+      apply IH. simpl in Hj. lia. }
+  destruct (find_obj (fkey (D ++ [n])) os) as [o|] eqn:E.
+  - apply find_obj_some in E as [Ho Ek]. apply Hgen; [exact Ek|].
+    apply has_key_upd; [apply add_scope_path|]. exists o; auto.
+  - apply Hgen; [reflexivity|]. exists (mkObj (D ++ [n]) None [] [Sc]). split; [apply in_or_app; right; left; reflexivity | reflexivity].
+Qed.
+
+(* ---- a missing last element is created, in the spelling of the declaration, with nothing on it ---- *)
+
+Lemma ensure_creates_last S D ns os :
+  ns <> [] -> all_exist D (removelast ns) os -> ~ has_key (fkey D ++ fkey ns) os ->
+  exists os' P, fst (ensure S D ns os) = os' ++ [mkObj (P ++ [last ns []]) None [] [S]]
+                /\ map gobj_of os' = map gobj_of os /\ fkey P = fkey D ++ fkey (removelast ns).
+Proof.
+  revert D os; induction ns as [|n r IH]; intros D os Hne Hall Hno; [contradiction|].
+  destruct r as [|n2 r].
+  - simpl in *. destruct (find_obj (fkey (D ++ [n])) os) as [o|] eqn:E.
+    + exfalso. apply Hno. apply find_obj_some in E as [Ho Ek]. rewrite fkey_app in Ek. exists o; auto.
+    + exists os, D. simpl. rewrite app_nil_r. auto.
+  - assert (has_key (fkey (D ++ [n])) os) as Hk.
+    { specialize (Hall 1). simpl in Hall. rewrite fkey_app. apply Hall. lia. }
+    apply find_obj_has_key in Hk.
+    destruct (find_obj (fkey (D ++ [n])) os) as [o|] eqn:E; [|congruence].
+    change (ensure S D (n :: n2 :: r) os) with
+      (match find_obj (fkey (D ++ [n])) os with
+       | Some o => ensure S (opath o) (n2 :: r) (upd_obj (fkey (D ++ [n])) (add_scope S) os)
+       | None => ensure S (D ++ [n]) (n2 :: r) (os ++ [mkObj (D ++ [n]) None [] [S]]) end).
+    rewrite E.
+    pose proof (find_obj_some _ _ _ E) as [_ Ek].
+    destruct (IH (opath o) (upd_obj (fkey (D ++ [n])) (add_scope S) os)) as [os' [P [E1 [E2 E3]]]].
+    + discriminate.
+    + change (removelast (n :: n2 :: r)) with (n :: removelast (n2 :: r)) in Hall.
+      eapply all_exist_step; eauto.
+    + intros [x [Hx Kx]]. apply Hno. unfold upd_obj in Hx. apply in_map_iff in Hx as [y [Ey Hy]].
+      exists y. split; [exact Hy|].
+      assert (opath x = opath y) as Exy by (destruct (at_key _ y); subst x; reflexivity).
+      rewrite <- Exy, Kx, Ek, fkey_app. simpl. rewrite <- app_assoc. reflexivity.
+    + exists os', P. split; [exact E1|]. split.
+      * rewrite E2. apply upd_obj_add_scope_gobjs.
+      * rewrite E3, Ek, fkey_app. change (removelast (n :: n2 :: r)) with (n :: removelast (n2 :: r)).
+        simpl. rewrite <- app_assoc. reflexivity.
+Qed.
+
+Lemma map_removelast' {A B} (f : A -> B) l : map f (removelast l) = removelast (map f l).
+Proof. induction l as [|x l IH]; [reflexivity|]. destruct l; [reflexivity|]. simpl in *. rewrite IH. reflexivity. Qed.
+
+Lemma removelast_length' {A} (l : list A) : length (removelast l) = length l - 1.
+Proof. induction l as [|x l IH]; [reflexivity|]. destruct l; [reflexivity|]. simpl in *. lia. Qed.
+
+Lemma delete_keeps_proper_prefixes K os ns :
+  K = fkey ns -> all_exist [] ns os ->
+  all_exist [] (removelast ns) (filter (fun o => negb (is_prefix K (fkey (opath o)))) os).
+Proof.
+  intros -> H j Hj. rewrite removelast_length' in Hj.
+  rewrite firstn_removelast by lia. destruct (H j) as [o [Ho Ko]]; [lia|]. exists o. split; [|exact Ko].
+  apply filter_In. split; [exact Ho|]. apply negb_true_iff.
+  destruct (is_prefix (fkey ns) (fkey (opath o))) eqn:P; [|reflexivity].
+  apply is_prefix_length in P. rewrite Ko in P. simpl in P. rewrite !fkey_length, firstn_length in P. lia.
+Qed.
+
+Lemma fkey_removelast_last ns : ns <> [] -> fkey (removelast ns) ++ fkey [last ns []] = fkey ns.
+Proof. intro H. rewrite <- fkey_app, <- app_removelast_last by exact H. reflexivity. Qed.
+
+Theorem redeclare_fresh p ns ns' pv b :
+  ns <> [] -> fkey ns = fkey ns' -> pv <> PNull ->
+  run (p ++ [DObj (0, ns) PNull None; DObj (0, ns') pv None]) = RBoard b ->
+  (exists o, gfind (fkey ns) (gobjs b) = Some o
+             /\ glabel o = match pv with PStr v => v | _ => last ns' [] end
+             /\ gshape o = rectangle /\ gstyle o = [] /\ last (gpath o) [] = last ns' [])
+  /\ (forall o, In o (gobjs b) -> is_prefix (fkey ns) (fkey (gpath o)) = true -> fkey (gpath o) = fkey ns).
+Proof.
+  intros Hne E Hpv H.
+  assert (ns' <> []) as Hne' by (intro X; subst; destruct ns; [contradiction | discriminate]).
+  apply run_board in H as [st' [Hs ->]].
+  replace (p ++ [DObj (0, ns) PNull None; DObj (0, ns') pv None])
+    with ((p ++ [DObj (0, ns) PNull None]) ++ [DObj (0, ns') pv None]) in Hs by (rewrite <- app_assoc; reflexivity).
+  rewrite run_state_snoc in Hs. rewrite run_state_snoc in Hs.
+  destruct (run_state p) as [st| |] eqn:Hp; try discriminate.
+  rewrite exec_obj_top in Hs by exact Hne. cbn zeta in Hs. cbn iota in Hs.
+  rewrite exec_obj_top in Hs by exact Hne'. cbn zeta in Hs.
+  set (os0 := fst (ensure [] [] ns (objs st))) in *.
+  set (os1 := filter (fun o => negb (is_prefix (fkey ns) (fkey (opath o)))) os0) in *.
+  assert (objs (delete_obj (fkey ns) (mkState os0 (edges st))) = os1) as Eo by reflexivity.
+  rewrite Eo in Hs.
+  destruct (ensure_creates_last [] [] ns' os1 Hne') as [os' [P [E1 [E2 E3]]]].
+  { assert (removelast ns' = removelast ns' ) by reflexivity.
+    assert (all_exist [] (removelast ns) os1) as Ha.
+    { apply delete_keeps_proper_prefixes; [reflexivity|]. apply ensure_all_exist. }
+    intros j Hj. simpl.
+    assert (fkey (firstn j (removelast ns')) = fkey (firstn j (removelast ns))) as Ef.
+    { unfold fkey. rewrite <- !firstn_map, !map_removelast'. unfold fkey in E. rewrite E. reflexivity. }
+    rewrite Ef. apply (Ha j).
+    assert (length (removelast ns') = length (removelast ns)) as El.
+    { rewrite <- (map_length fold_name (removelast ns')), <- (map_length fold_name (removelast ns)), !map_removelast'.
+      unfold fkey in E. rewrite E. reflexivity. }
+    lia. }
+  { simpl. rewrite <- E. intros [o [Ho Ko]]. unfold os1 in Ho. apply filter_In in Ho as [_ Hf].
+    rewrite Ko, is_prefix_refl in Hf. discriminate. }
+  cbn [app fkey map] in E3. fold (fkey (removelast ns')) in E3.
+  assert (fkey (P ++ [last ns' []]) = fkey ns) as Kn.
+  { rewrite fkey_app, E3, fkey_removelast_last by exact Hne'. symmetry; exact E. }
+  assert (forall f, (forall o, opath (f o) = opath o) ->
+            exists os'', upd_obj (fkey ns') f (fst (ensure [] [] ns' os1)) = os'' ++ [f (mkObj (P ++ [last ns' []]) None [] [[]])]
+                          /\ map gobj_of os'' = map gobj_of os1) as Hupd.
+  { intros f Hf. rewrite E1. unfold upd_obj. rewrite map_app. cbn [map].
+    eexists. split.
+    { match goal with |- context [if at_key ?k ?o then _ else _] =>
+        assert (at_key k o = true) as Ak by (apply at_key_true; cbn [opath]; rewrite Kn; exact E); rewrite Ak end.
+      reflexivity. }
+    rewrite <- E2. rewrite !map_map. apply map_ext_in. intros o Ho.
+    destruct (at_key (fkey ns') o) eqn:Ao; [|reflexivity].
+    exfalso. apply at_key_true in Ao.
+    assert (In (gobj_of o) (map gobj_of os1)) as Hin by (rewrite <- E2; apply in_map; exact Ho).
+    apply in_map_iff in Hin as [o1 [Eg Ho1]]. apply gobj_of_path_eq in Eg.
+    unfold os1 in Ho1. apply filter_In in Ho1 as [_ Hf1]. rewrite Eg, Ao, <- E, is_prefix_refl in Hf1. discriminate. }
+  assert (forall o, In o os1 -> is_prefix (fkey ns) (fkey (opath o)) = false) as Hos1.
+  { intros o Ho. unfold os1 in Ho. apply filter_In in Ho as [_ Hf]. apply negb_true_iff in Hf. exact Hf. }
+  destruct pv as [| |v]; [|contradiction|].
+  - (* PNone *)
+    inversion Hs; subst; clear Hs. unfold to_board; cbn [gobjs objs].
+    rewrite E1, map_app. simpl. split.
+    + exists (gobj_of (mkObj (P ++ [last ns' []]) None [] [[]])). split.
+      * unfold gfind. rewrite find_app'.
+        destruct (find _ (map gobj_of os')) as [g|] eqn:Ef.
+        { exfalso. apply find_some in Ef as [Hg Kg]. rewrite E2 in Hg. apply in_map_iff in Hg as [o1 [<- Ho1]].
+          apply path_eqb_eq in Kg. cbn [gpath gobj_of] in Kg. specialize (Hos1 o1 Ho1). rewrite Kg, is_prefix_refl in Hos1. discriminate. }
+        simpl. cbn [gpath gobj_of opath]. rewrite Kn, path_eqb_refl. reflexivity.
+      * unfold gobj_of. cbn. rewrite last_last. auto.
+    + intros o Ho Hp'. apply in_app_or in Ho as [Ho|[<-|[]]].
+      * rewrite E2 in Ho. apply in_map_iff in Ho as [o1 [<- Ho1]]. cbn [gpath gobj_of] in Hp'. rewrite (Hos1 o1 Ho1) in Hp'. discriminate.
+      * cbn [gpath gobj_of opath set_prim]. exact Kn.
+  - (* PStr *)
+    destruct (Hupd (set_prim v) (set_prim_path v)) as [os'' [U1 U2]].
+    inversion Hs; subst; clear Hs. unfold to_board; cbn [gobjs objs].
+    rewrite U1, map_app. simpl. split.
+    + exists (gobj_of (set_prim v (mkObj (P ++ [last ns' []]) None [] [[]]))). split.
+      * unfold gfind. rewrite find_app'.
+        destruct (find _ (map gobj_of os'')) as [g|] eqn:Ef.
+        { exfalso. apply find_some in Ef as [Hg Kg]. rewrite U2 in Hg. apply in_map_iff in Hg as [o1 [<- Ho1]].
+          apply path_eqb_eq in Kg. cbn [gpath gobj_of] in Kg. specialize (Hos1 o1 Ho1). rewrite Kg, is_prefix_refl in Hos1. discriminate. }
+        simpl. cbn [gpath gobj_of opath set_prim]. rewrite Kn, path_eqb_refl. reflexivity.
+      * unfold gobj_of, set_prim. cbn. rewrite last_last. auto.
+    + intros o Ho Hp'. apply in_app_or in Ho as [Ho|[<-|[]]].
+      * rewrite U2 in Ho. apply in_map_iff in Ho as [o1 [<- Ho1]]. cbn [gpath gobj_of] in Hp'. rewrite (Hos1 o1 Ho1) in Hp'. discriminate.
+      * cbn [gpath gobj_of opath set_prim]. exact Kn.
 Qed.
